@@ -671,6 +671,14 @@ class PVLEncoder(object):
                     f'delimiter "{d}" and cannot be written.'
                 )
 
+        # A Units Value begins and ends with a units character: white space
+        # next to the delimiters is not part of it when it is read.
+        if value != value.strip("".join(self.grammar.whitespace)):
+            raise ValueError(
+                f'The units "{value}" begin or end with white space, '
+                "which would not be read back."
+            )
+
         return (
             self.grammar.units_delimiters[0]
             + value
@@ -1024,11 +1032,7 @@ class ODLEncoder(PVLEncoder):
                             "is not a decimal integer."
                         )
 
-            return (
-                self.grammar.units_delimiters[0]
-                + value
-                + self.grammar.units_delimiters[1]
-            )
+            return super().encode_units(value)
         else:
             raise ValueError(
                 f'The value, "{value}", does not conform to '
